@@ -1,0 +1,101 @@
+//go:build verif
+
+package excelize
+
+import (
+	"encoding/hex"
+	"fmt"
+	"strings"
+)
+
+func verifHex(s string) string {
+	if s == "" {
+		return "-"
+	}
+	return hex.EncodeToString([]byte(s))
+}
+
+// VerifDumpSheet prints the internal dense grid of a worksheet (row slots,
+// cell slots with their stored references, merge list) in a canonical form,
+// together with whether the representation invariant (slot i holds row i+1,
+// slot j holds column j+1) holds. It does not modify the worksheet beyond what
+// workSheetReader does.
+func VerifDumpSheet(f *File, sheet string) string {
+	ws, err := f.workSheetReader(sheet)
+	if err != nil {
+		return "ERR"
+	}
+	var b strings.Builder
+	dense := 1
+	fmt.Fprintf(&b, "rows=%d", len(ws.SheetData.Row))
+	for i := range ws.SheetData.Row {
+		row := &ws.SheetData.Row[i]
+		if row.R != i+1 {
+			dense = 0
+		}
+		var cb strings.Builder
+		for j := range row.C {
+			c := &row.C[j]
+			name, _ := CoordinatesToCellName(j+1, i+1)
+			if c.R != name {
+				dense = 0
+			}
+			if c.hasValue() || c.IS != nil {
+				fs := "~"
+				if c.F != nil {
+					fs = verifHex(c.F.Content)
+				}
+				is := "~"
+				if c.IS != nil {
+					is = verifHex(c.IS.String())
+					if c.IS.T != nil {
+						is = verifHex(c.IS.T.Val)
+					}
+				}
+				fmt.Fprintf(&cb, " %s:s=%d:t=%s:v=%s:f=%s:is=%s", c.R, c.S, c.T, verifHex(c.V), fs, is)
+			}
+		}
+		if len(row.C) > 0 || row.S != 0 {
+			fmt.Fprintf(&b, " | R%d s%d n%d%s", row.R, row.S, len(row.C), cb.String())
+		}
+	}
+	b.WriteString(" M=")
+	if ws.MergeCells != nil {
+		for i, m := range ws.MergeCells.Cells {
+			if i > 0 {
+				b.WriteString(",")
+			}
+			if m == nil {
+				b.WriteString("nil")
+			} else {
+				b.WriteString(m.Ref)
+			}
+		}
+	}
+	fmt.Fprintf(&b, " dense=%d", dense)
+	return b.String()
+}
+
+// VerifIsNumeric exposes isNumeric's verdict.
+func VerifIsNumeric(s string) bool { ok, _, _ := isNumeric(s); return ok }
+
+// VerifBstrMarshal / VerifBstrUnmarshal expose the basic-string escaping.
+func VerifBstrMarshal(s string) string   { return bstrMarshal(s) }
+func VerifBstrUnmarshal(s string) string { return bstrUnmarshal(s) }
+
+// VerifSharedStrings returns the raw shared-string items (T.Val of plain items).
+func VerifSharedStrings(f *File) []string {
+	sst, err := f.sharedStringsReader()
+	if err != nil {
+		return nil
+	}
+	var out []string
+	for _, si := range sst.SI {
+		if si.T != nil {
+			out = append(out, si.T.Val)
+		} else {
+			out = append(out, si.String())
+		}
+	}
+	return out
+}
